@@ -443,10 +443,27 @@ var _ *openfgav1.Userset
 
 //@ func (*WeightedAuthorizationModelGraph).calculateNodeWeightFromTheEdges
 //@   props C04 C05
+//@   closed_alloc
 //@   requires wg != nil && wg.nodes[nodeID] != nil && wfEdges(wg.edges[nodeID]) && tupleCycleDependencies != nil
 //@   requires wfDeps(wg, tupleCycleDependencies[nodeID]) && sepWildcards() && sepDeps(tupleCycleDependencies)
 //@   requires forall e *WeightedAuthorizationModelEdge :: allocated(e) ==> weightsInRange(e.weights)
 //@   requires forall n *WeightedAuthorizationModelNode :: allocated(n) ==> weightsInRange(n.weights)
+//@   requires dfs_args: wg.edges != tupleCycleDependencies && linked(wg) && depsWf(wg, tupleCycleDependencies) && sepED(wg, tupleCycleDependencies)
+//@   -- Preservation of the representation invariant of the weight assignment (see calculateNodeWeight). ASSUMED here, not proved: the
+//@   -- clauses would have to be carried through the nested loops of fixDependantEdgesWeight / fixDependantNodesWeight; their callers
+//@   -- (calculateNodeWeight, AssignWeights) are proved relative to them. What the code does to these structures: node/edge weight maps are
+//@   -- replaced by fresh maps with values in range, wildcard lists grow through the separated helpers, dependency lists are appended to
+//@   -- or deleted, nothing else is written.
+//@   assumes inv_linked: linked(wg)
+//@   ensures inv_wild: sepWildcards()
+//@   assumes inv_deps_wf: err == nil ==> depsWf(wg, tupleCycleDependencies)
+//@   assumes inv_deps_sep: err == nil ==> sepDeps(tupleCycleDependencies)
+//@   assumes inv_deps_ed: err == nil ==> sepED(wg, tupleCycleDependencies)
+//@   assumes inv_range_e: err == nil ==> inRangeE()
+//@   assumes inv_range_n: err == nil ==> inRangeN()
+//@   assumes edge_lists_kept: forall k string :: wg.edges[k] == old(wg.edges[k])
+//@   assumes edge_arrays_kept: forall s []*WeightedAuthorizationModelEdge, i int :: isold(s) && (forall a string :: arr(s) != arr(old(tupleCycleDependencies[a]))) ==> s[i] == old(s[i])
+//@   assumes foreign_arrays_stay_foreign: forall s []*WeightedAuthorizationModelEdge :: isold(s) && (forall b string :: arr(s) != arr(old(tupleCycleDependencies[b]))) ==> (forall a string :: arr(s) != arr(tupleCycleDependencies[a]))
 //@   -- ENGINE LIMITATION: the two clauses error_is_sentinel and constraint_on_cycle_rejected need the package-initialisation fact
 //@   -- wraps(ErrContrainstTupleCycle, ErrTupleCycle) (var ErrContrainstTupleCycle = fmt.Errorf("%w: ...", ErrTupleCycle)). The engine models the
 //@   -- variable like errors.New (wraps(ErrContrainstTupleCycle, q) <==> q == ErrContrainstTupleCycle), so both stay unproved and a
@@ -493,7 +510,28 @@ var _ *openfgav1.Userset
 
 //@ func (*WeightedAuthorizationModelGraph).calculateEdgeWeight
 //@   props C04 C05
+//@   closed_alloc
 //@   requires wg != nil && edge != nil && edge.from != nil && edge.to != nil && tupleCycleDependencies != nil && wfPath(ancestorPath)
+//@   -- the representation invariant of the depth-first weight assignment (see calculateNodeWeight)
+//@   requires dfs_args: visited != nil && wg.edges != tupleCycleDependencies && wg.nodes[edge.to.uniqueLabel] != nil && wg.nodes[edge.from.uniqueLabel] != nil && pathSep(wg, tupleCycleDependencies, ancestorPath)
+//@   requires inv_linked: linked(wg)
+//@   requires inv_deps: depsWf(wg, tupleCycleDependencies) && sepDeps(tupleCycleDependencies) && sepED(wg, tupleCycleDependencies)
+//@   requires inv_wild: sepWildcards()
+//@   requires inv_range: inRangeE() && inRangeN()
+//@   -- Preservation of the representation invariant by the part of this function that follows the descent (recording the edge as a
+//@   -- dependant of pending cycles, copying the target's weights). ASSUMED, not proved (see calculateNodeWeightFromTheEdges): the function
+//@   -- appends to dependency lists (fresh or in-place within capacity, never into an edge list or the path: sepED, pathSep), replaces
+//@   -- edge.weights by a fresh map whose values are the target's (+1 unless Infinite), and writes nothing else.
+//@   assumes path_kept: forall i int :: 0 <= i && i < len(ancestorPath) ==> ancestorPath[i] == old(ancestorPath[i])
+//@   assumes path_sep_kept: pathSep(wg, tupleCycleDependencies, ancestorPath)
+//@   assumes inv_linked: linked(wg)
+//@   assumes inv_wild: sepWildcards()
+//@   assumes inv_deps_wf: err == nil ==> depsWf(wg, tupleCycleDependencies)
+//@   assumes inv_deps_sep: err == nil ==> sepDeps(tupleCycleDependencies)
+//@   assumes inv_deps_ed: err == nil ==> sepED(wg, tupleCycleDependencies)
+//@   assumes inv_range_e: err == nil ==> inRangeE()
+//@   assumes inv_range_n: err == nil ==> inRangeN()
+//@   assumes edge_lists_kept: forall k string :: wg.edges[k] == old(wg.edges[k])
 //@   ensures error_is_sentinel: err != nil ==> wraps(err, ErrModelCycle) || wraps(err, ErrTupleCycle) || wraps(err, ErrInvalidModel)
 //@   -- self edge: a placeholder weight, the edge becomes a dependant of its own node, the node is reported as an open tuple cycle
 //@   ensures self_edge_placeholder: old(edge.from.uniqueLabel) == old(edge.to.uniqueLabel) && old(weightHop(edge)) ==> err == nil && len(result0) == 1 && result0[0] == old(edge.to.uniqueLabel)
@@ -659,20 +697,88 @@ var _ *openfgav1.Userset
 //@   loop 1 invariant child_heights: forall i int :: 0 <= i && i < len(children) ==> rwHeight(children[i]) < rwHeight(rewrite)
 
 // ---------------------------------------------------------------------------------------------------------------
-// C05: every error of the weight assignment wraps one of the three sentinels. calculateNodeWeight/calculateEdgeWeight (the DFS) are out
-// of scope as a whole: calculateNodeWeight gets this weak TRUSTED contract (the one sanctioned use of `trusted`), its callers are verified
-// against it.
+// C05/C08/C04: the depth-first weight assignment (AssignWeights -> calculateNodeWeight <-> calculateEdgeWeight). The two mutually
+// recursive functions are verified against their contracts like every other function (a recursive call is used through the
+// contract; partial correctness - termination of the recursion is not claimed, B4 is its bounded stand-in). What carries the proof
+// is a representation invariant of the graph and of the bookkeeping of pending tuple cycles, in six parts:
+//   linked      every edge filed in the graph exists, has both ends, and both ends are filed under their labels (never written by the DFS)
+//   depsWf      every edge recorded as depending on a pending cycle exists and its source node is filed in the graph
+//   sepWildcards  wildcard lists of different holders share no backing array (contracts_verif.go)
+//   sepDeps     dependency lists of different cycle roots share no backing array
+//   sepED       no dependency list shares a backing array with an edge list of the graph
+//   inRange     every weight lies in [0, Infinite]
+//@ spec linkedEdge(wg *WeightedAuthorizationModelGraph, e *WeightedAuthorizationModelEdge) bool =
+//@   e != nil && e.from != nil && e.to != nil && wg.nodes[e.to.uniqueLabel] != nil && wg.nodes[e.from.uniqueLabel] != nil
+//@   && (e.to.nodeType == SpecificTypeWildcard ==> len(e.to.uniqueLabel) >= 2)
+//@ spec linked(wg *WeightedAuthorizationModelGraph) bool =
+//@   forall k string, i int :: 0 <= i && i < len(wg.edges[k]) ==> linkedEdge(wg, wg.edges[k][i])
+//@ spec depsWf(wg *WeightedAuthorizationModelGraph, m map[string][]*WeightedAuthorizationModelEdge) bool =
+//@   forall k string, j int :: 0 <= j && j < len(m[k]) ==> m[k][j] != nil && m[k][j].from != nil && wg.nodes[m[k][j].from.uniqueLabel] != nil
+//@ spec sepED(wg *WeightedAuthorizationModelGraph, m map[string][]*WeightedAuthorizationModelEdge) bool =
+//@   forall a string, b string :: arr(m[a]) != 0 ==> arr(m[a]) != arr(wg.edges[b])
+//@ spec inRangeE() bool = forall e *WeightedAuthorizationModelEdge :: allocated(e) ==> weightsInRange(e.weights)
+//@ spec inRangeN() bool = forall n *WeightedAuthorizationModelNode :: allocated(n) ==> weightsInRange(n.weights)
+//@ spec pathSep(wg *WeightedAuthorizationModelGraph, m map[string][]*WeightedAuthorizationModelEdge, p []*WeightedAuthorizationModelEdge) bool =
+//@   (forall b string :: arr(p) != 0 ==> arr(p) != arr(wg.edges[b]) && arr(p) != arr(m[b]))
+
 //@ func (*WeightedAuthorizationModelGraph).calculateNodeWeight
-//@   props C05
-//@   trusted
+//@   props C05 C08 C04
+//@   closed_alloc
+//@   requires wg != nil && wg.nodes[nodeID] != nil && visited != nil && tupleCycleDependencies != nil && wg.edges != tupleCycleDependencies
+//@   requires path: wfPath(ancestorPath)
+//@   requires path_sep: pathSep(wg, tupleCycleDependencies, ancestorPath)
+//@   requires inv_linked: linked(wg)
+//@   requires inv_deps: depsWf(wg, tupleCycleDependencies) && sepDeps(tupleCycleDependencies) && sepED(wg, tupleCycleDependencies)
+//@   requires inv_wild: sepWildcards()
+//@   requires inv_range: inRangeE() && inRangeN()
 //@   ensures error_is_sentinel: err != nil ==> wraps(err, ErrModelCycle) || wraps(err, ErrTupleCycle) || wraps(err, ErrInvalidModel)
 //@   -- frame needed by calculateEdgeWeight (the descent appends to copies of the path, it never overwrites an element within its length,
 //@   -- and it never writes the from/to fields of an edge)
 //@   ensures path_kept: forall i int :: 0 <= i && i < len(ancestorPath) ==> ancestorPath[i] == old(ancestorPath[i])
+//@   ensures inv_linked: linked(wg)
+//@   ensures inv_wild_nn: sepWildcardsNN()
+//@   ensures inv_wild_ne: sepWildcardsNE()
+//@   ensures inv_wild_ee: sepWildcardsEE()
+//@   ensures inv_deps_wf: err == nil ==> depsWf(wg, tupleCycleDependencies)
+//@   ensures inv_deps_sep: err == nil ==> sepDeps(tupleCycleDependencies)
+//@   ensures inv_deps_ed: err == nil ==> sepED(wg, tupleCycleDependencies)
+//@   ensures inv_range_e: err == nil ==> inRangeE()
+//@   ensures inv_range_n: err == nil ==> inRangeN()
+//@   ensures path_sep_kept: pathSep(wg, tupleCycleDependencies, ancestorPath)
+//@   ensures edge_lists_kept: forall k string :: wg.edges[k] == old(wg.edges[k])
+//@   loop 1 invariant inv_linked: linked(wg) && wg.nodes[nodeID] != nil
+//@   loop 1 invariant inv_wild: sepWildcards()
+//@   loop 1 invariant inv_deps_wf: depsWf(wg, tupleCycleDependencies)
+//@   loop 1 invariant inv_deps_sep: sepDeps(tupleCycleDependencies)
+//@   loop 1 invariant inv_deps_ed: sepED(wg, tupleCycleDependencies)
+//@   loop 1 invariant inv_range_e: inRangeE()
+//@   loop 1 invariant inv_range_n: inRangeN()
+//@   loop 1 invariant path: wfPath(ancestorPath)
+//@   loop 1 invariant path_sep: pathSep(wg, tupleCycleDependencies, ancestorPath)
+//@   loop 1 invariant path_kept: forall i int :: 0 <= i && i < len(ancestorPath) ==> ancestorPath[i] == old(ancestorPath[i])
+//@   loop 1 invariant edges_kept: forall k string :: wg.edges[k] == old(wg.edges[k])
 
+// AssignWeights starts the descent at every node of the graph (in map order: the loop is proved for every order). Its
+// preconditions are the representation invariant of a graph as the builder leaves it.
+//@ spec nodesFiled(wg *WeightedAuthorizationModelGraph) bool = forall k string :: has(wg.nodes, k) ==> wg.nodes[k] != nil
 //@ func (*WeightedAuthorizationModelGraph).AssignWeights
-//@   props C05
+//@   props C05 C08 C04
+//@   closed_alloc
 //@   requires wg != nil
+//@   requires graph_nodes: nodesFiled(wg)
+//@   requires graph_linked: linked(wg)
+//@   requires graph_wild: sepWildcards()
+//@   requires graph_range: inRangeE() && inRangeN()
+//@   loop 1 invariant args: visited != nil && tupleCycleDependencies != nil && fresh(tupleCycleDependencies) && fresh(visited) && wg.edges != tupleCycleDependencies
+//@   loop 1 invariant path: len(ancestorPath) == 0 && fresh(ancestorPath) && pathSep(wg, tupleCycleDependencies, ancestorPath)
+//@   loop 1 invariant inv_nodes: nodesFiled(wg)
+//@   loop 1 invariant inv_linked: linked(wg)
+//@   loop 1 invariant inv_wild: sepWildcards()
+//@   loop 1 invariant inv_deps_wf: depsWf(wg, tupleCycleDependencies)
+//@   loop 1 invariant inv_deps_sep: sepDeps(tupleCycleDependencies)
+//@   loop 1 invariant inv_deps_ed: sepED(wg, tupleCycleDependencies)
+//@   loop 1 invariant inv_range_e: inRangeE()
+//@   loop 1 invariant inv_range_n: inRangeN()
 //@   ensures error_is_sentinel: err != nil ==> wraps(err, ErrModelCycle) || wraps(err, ErrTupleCycle) || wraps(err, ErrInvalidModel)
 
 //@ func (*WeightedAuthorizationModelGraphBuilder).Build
